@@ -36,6 +36,10 @@ fn rrl_zone() -> (RefCatalog, QCatalog) {
         RRec { owner: RName::simple("ns.rrl.test."), rtype: T_A, class: C_IN, ttl: 300, rdata: vec![192, 0, 2, 1] },
         RRec { owner: RName::simple("www.rrl.test."), rtype: T_A, class: C_IN, ttl: 300, rdata: vec![192, 0, 2, 2] },
         RRec { owner: RName::simple("mail.rrl.test."), rtype: T_A, class: C_IN, ttl: 300, rdata: vec![192, 0, 2, 3] },
+        // same octets as "mail.rrl.test." with the label boundaries elsewhere: different names,
+        // hence different NOERROR streams
+        RRec { owner: RName::simple("ma.il.rrl.test."), rtype: T_A, class: C_IN, ttl: 300, rdata: vec![192, 0, 2, 6] },
+        RRec { owner: RName::simple("m.ail.rrl.test."), rtype: T_A, class: C_IN, ttl: 300, rdata: vec![192, 0, 2, 7] },
         RRec { owner: RName::simple("*.wild.rrl.test."), rtype: T_A, class: C_IN, ttl: 300, rdata: vec![192, 0, 2, 4] },
         RRec { owner: RName::simple("*.other.rrl.test."), rtype: T_A, class: C_IN, ttl: 300, rdata: vec![192, 0, 2, 5] },
     ];
@@ -389,7 +393,7 @@ fn gen_source(rng: &mut Rng, base: Option<&IpAddr>, v4: u8, v6: u8) -> IpAddr {
     }
 }
 
-const C27_NAMES: [&str; 13] = ["www.rrl.test.", "WWW.RRL.test.", "mail.rrl.test.", "a.wild.rrl.test.", "B.wild.rrl.test.", "c.other.rrl.test.", "nx1.rrl.test.", "nx2.rrl.test.", "www.elsewhere.", "txt.rrl.test.", "a.big.rrl.test.", "b.big.rrl.test.", "C.Big.rrl.test."];
+const C27_NAMES: [&str; 17] = ["ma.il.rrl.test.", "m.ail.rrl.test.", "MA.IL.rrl.test.", "mail.rrl.test.", "www.rrl.test.", "WWW.RRL.test.", "mail.rrl.test.", "a.wild.rrl.test.", "B.wild.rrl.test.", "c.other.rrl.test.", "nx1.rrl.test.", "nx2.rrl.test.", "www.elsewhere.", "txt.rrl.test.", "a.big.rrl.test.", "b.big.rrl.test.", "C.Big.rrl.test."];
 
 fn gen_req(rng: &mut Rng, base: Option<&Req>, v4: u8, v6: u8) -> Req {
     let name = if let (Some(b), true) = (base, rng.chance(1, 3)) { b.name.clone() } else { RName::simple(C27_NAMES[rng.below(C27_NAMES.len())]) };
